@@ -128,6 +128,10 @@ class SequenceAssociationTransformer(Transformer):
                 new_args += [arg,]
 
         if found_scalar:
-            return call.clone(arguments = as_tuple(new_args))
+            # `arg_map` lists the positional arguments first, followed by the keyword
+            # arguments in call order: put every argument back to where it came from
+            n_args = len(call.arguments)
+            kwarguments = tuple((kw, arg) for (kw, _), arg in zip(call.kwarguments, new_args[n_args:]))
+            return call.clone(arguments=as_tuple(new_args[:n_args]), kwarguments=kwarguments)
 
         return call
